@@ -473,6 +473,67 @@ def strip_attrs_and_docs(txt: str, cfg=None) -> str:
     return ''.join(out)
 
 
+def blank_cfg(src: str, cfg) -> str:
+    """E3 for function bodies: every `#[cfg(..)]` attribute is evaluated for the default feature set; a disabled one is
+    blanked together with the statement / item / field it decorates, an enabled one is blanked alone. Length and line
+    structure are preserved (only spaces are written), so offsets and line numbers still refer to /repo."""
+    m = mask(src)
+    out = list(src)
+    n = len(src)
+
+    def blank(a, b):
+        for k in range(a, b):
+            if out[k] != '\n':
+                out[k] = ' '
+    i = 0
+    while i < n:
+        if m[i] == '#' and i + 1 < n and m[i + 1] == '[':
+            k = match_close(m, i + 1)
+            attr = src[i:k + 1]
+            mm = re.match(r'^#\s*\[\s*cfg\s*\((.*)\)\s*\]$', attr, re.S)
+            if not mm:
+                i = k + 1
+                continue
+            enabled = _cfg_eval(mm.group(1), cfg)
+            blank(i, k + 1)
+            j = k + 1
+            if not enabled:
+                # skip whitespace and further attributes, then the decorated element
+                while j < n and (m[j].isspace() or m[j] == '#'):
+                    if m[j] == '#':
+                        j = match_close(m, m.index('[', j)) + 1
+                    else:
+                        j += 1
+                start = j
+                blank(k + 1, start)     # further attributes of the disabled element go with it
+                while j < n:
+                    c = m[j]
+                    if c in '([{':
+                        j = match_close(m, j) + 1
+                        if c == '{':
+                            jj = j
+                            while jj < n and m[jj] in ' \t':
+                                jj += 1
+                            if jj < n and m[jj] in ',;':
+                                j = jj + 1
+                                break
+                            # a block ends an item; for `let x = { .. };` the ';' follows and was handled above
+                            if not re.match(r'\s*let\b', m[start:start + 6]):
+                                break
+                        continue
+                    if c in ',;':
+                        j += 1
+                        break
+                    if c in ')]}':
+                        break
+                    j += 1
+                blank(start, j)
+            i = j
+        else:
+            i += 1
+    return ''.join(out)
+
+
 if __name__ == '__main__':
     import sys
     src = open(sys.argv[1]).read()
